@@ -370,10 +370,16 @@ def build(tree, rng=None):
     if tag == "any":
         return AnyAttr()
     if tag == "eq":
+        from xdsl.dialects.builtin import SignednessAttr
+        if isinstance(tree[1], SignednessAttr) and _pick(rng, 3) == 2:
+            return irdl_to_attr_constraint(tree[1].data)              # ConstraintConvertible instance (Signedness member)
         return (EqAttrConstraint(tree[1]), eq(tree[1]), irdl_to_attr_constraint(tree[1]))[_pick(rng, 3)]
     if tag == "set":
         return AttrSetConstraint.get(*tree[1])
     if tag == "base":
+        from xdsl.dialects.builtin import Signedness, SignednessAttr
+        if tree[1] is SignednessAttr and _pick(rng, 3) == 2:
+            return irdl_to_attr_constraint(Signedness)                # ConstraintConvertible class
         return (BaseAttr(tree[1]), base(tree[1]), irdl_to_attr_constraint(tree[1]))[_pick(rng, 3)]
     if tag == "param":
         kids = [build(t, rng) for t in tree[2]]
